@@ -20,6 +20,7 @@ import (
 
 var ProfileC19 = &Profile{
 	MultiMsg: true,
+	VaryFees: true,
 	ID:       "C19", Name: "determinism", MinBlocks: 10, MaxBlocks: 45, MaxTxs: 6, Spec: withBurner(specDefault), Weights: withWeights(allWeights(), map[string]int{"bank.send_to_burn": 6}),
 	ExtraOps: c04ExtraOps, // swap batches with several requests per block
 	Rule:     "history with >=20 blocks, >=1 gap >= 1 day (epoch boundary), >=2 reward denoms credited and >=1 swap batch with >=2 accepted requests; replicas: fresh app, and app restarted from its DB at generated heights",
